@@ -22,7 +22,9 @@ A state `Sys` consists of
   the network fewer choices); nothing is ever removed;
 * `rcv : PRecv.G` — the receiver with the ghosts of C01 (`adv`: distance the window base has moved,
   `log`: every packet taken out of the receive window, with unwrapped id `uid`);
-* `seen` — ghost: `(adv, base_id)` of the receiver initially and after every `receive`.
+* `seen` — ghost: `(adv, base_id)` of the receiver initially and after every `receive` / `resync`;
+* `syncs` — ghost: `(number of packets emitted so far, next_id)` of the sender at every `sync` step:
+  the values the `next_packet_id` field of a sync frame can carry.
 
 Steps `SOp` (`stepS`; each is the existing model function, through `PSend.stepH` / `PRecv.stepT`):
 * `enq data chan mode flush` — `enqueue_packet`, refused (no-op) if `data.length > MAX_PACKET_SIZE`
@@ -33,8 +35,21 @@ Steps `SOp` (`stepS`; each is the existing model function, through `PSend.stepH`
 * `recv` — `receive`;
 * `ack k` — the sender's `acknowledge(rb)` where `rb` is the `k`-th entry of `seen`: any base id the
   receiver had at some earlier or the current time, in any order, any number of times, subject to
-  `AckFresh` below.
-`resynchronize` and `acknowledge_fragment` are not part of the system.
+  `AckFresh` below;
+* `sync` — the sender puts a sync frame carrying `next_packet_id = Some(next_id)` on the wire: the
+  pair `(emitted so far, next_id)` is appended to `syncs`. The step is only taken when the ghost guard
+  `SyncOk` holds (a no-op otherwise): every Reliable packet emitted so far has been completely
+  received (`Recvd`: it is in the log, or the receive window base has passed it, or its slot in the
+  receive window has the entry flag). This is what the frame layer has to discharge:
+  `emit_sync_frame` sends `next_packet_id` only when the resend queue and the pending queue are empty,
+  i.e. every fragment of every Reliable / Persistent packet still in the send window has been
+  acknowledged at frame level. Nothing is required of Unreliable, TimeSensitive or Persistent packets;
+* `resync k` — the receiver's `resynchronize(id)` where `id` is the `k`-th entry of `syncs`: any
+  recorded sync value, in any order, any number of times, arbitrarily late, subject to `SyncFresh`
+  below. The new base is recorded in `seen`.
+A schedule without `sync` / `resync` steps runs exactly as before these two steps were added (the
+other cases of `stepS` are unchanged; `C01_sys_projects`). `acknowledge_fragment` is not part of the
+system (no step reads the fragment flags).
 
 ## The network hypotheses
 
@@ -46,8 +61,12 @@ taken as guards of the `deliver` / `ack` steps (a step violating its guard is a 
   packet;
 * `AckFresh s a := (packets that left the send window) + w < a + 2^20` — an acknowledgement carrying
   the receiver base with unwrapped value `a` is handed to the sender only while the send window base
-  is less than `2^20 - w` ids beyond it.
-Both follow from "at most `2^19` packets were emitted after it" (`C01_sys_fresh_of_recent`), and
+  is less than `2^20 - w` ids beyond it;
+* `SyncFresh s n := s.rcv.adv + W < n + 2^20` — a sync frame carrying the sender's next id with
+  unwrapped value `n` is handed to the receiver only while the receive window base is less than
+  `2^20 - W` ids beyond it (a stale sync frame, `n < adv`, is then ignored by `resynchronize`).
+All three follow from "at most `2^19` packets were emitted after it" (`C01_sys_fresh_of_recent`,
+`C01_sys_syncfresh_of_recent`), and
 `Fresh` holds automatically in runs without acknowledgements when `w + W ≤ 2^20`
 (`C01_sys_fresh_automatic_noack`). In the real system datagrams and acknowledgements travel in
 frames; a frame older than the newest one seen is discarded and at most 4096 frames are outstanding,
@@ -65,13 +84,15 @@ open Uflow Uflow.Gen Uflow.Codec Uflow.PSend Uflow.PRecv Uflow.Frag Uflow.Sys
 
 /-- The sender component (with its history) of every system run is a plain sender run `PSend.runH`
 (the object of C05 / C02), and the receiver component is a plain instrumented receiver run
-`PRecv.runT` without `resynchronize` (the object of C01 / C02Recv): all theorems of those files apply
-to `s'.snd, s'.hist` and `s'.rcv`. -/
+`PRecv.runT` (the object of C01 / C02Recv): all theorems of those files apply to `s'.snd, s'.hist` and
+`s'.rcv`. The receiver run contains a `resynchronize` call only if the system schedule contains a
+`resync` step (`Sys.NoResync ops`: it does not). -/
 theorem C01_sys_projects (w k b a m : Nat) (ops : List SOp) (s' : Sys)
     (h : runS (initS w (2^k) b a m) ops = .ok s') :
     (∃ sops, runH (PSend.init w b a) {} sops = .ok (s'.snd, s'.hist)) ∧
-    (∃ rops, (∀ op ∈ rops, ∀ id, op ≠ .resync id) ∧ runT (initG (2^k) b m) rops = .ok s'.rcv) :=
-  reach_run ops (reach_init w (2^k) b a m) h
+    (∃ rops, (NoResync ops → ∀ op ∈ rops, ∀ id, op ≠ .resync id) ∧ runT (initG (2^k) b m) rops = .ok s'.rcv) := by
+  obtain ⟨h1, rops, h2, h3⟩ := reach_run ops (reach_init w (2^k) b a m) h
+  exact ⟨h1, rops, fun hn => h2 ⟨trivial, hn⟩, h3⟩
 
 /-- Every state of a system run satisfies the system invariant `Sys.SInv`
 (`Uflow/Lemmas/SysInv.lean`), which contains the sender invariant `HInv`, the receiver invariants
@@ -134,6 +155,24 @@ theorem C01_sys_log_is_receive_output (s s' : Sys) (op : SOp) (h : stepS s op = 
       · cases hr : stepH s.snd s.hist (.ack rb) with
         | error t => rw [hr] at h; cases h
         | ok r => rw [hr, bindR_ok] at h; cases h; rfl
+      · cases h; rfl
+  | sync =>
+    refine ⟨fun hc => (by cases hc), fun _ => ?_⟩
+    simp only [stepS] at h
+    split at h
+    · cases h; rfl
+    · cases h; rfl
+  | resync k =>
+    refine ⟨fun hc => (by cases hc), fun _ => ?_⟩
+    simp only [stepS] at h
+    split at h
+    · cases h; rfl
+    · rename_i n id hk
+      split at h
+      · rw [stepT_resync] at h
+        cases hd : resynchronize s.rcv.st id with
+        | error t => rw [hd] at h; cases h
+        | ok st' => rw [hd, bindR_ok, bindR_ok] at h; cases h; rfl
       · cases h; rfl
 
 /-! ## 2. The link between the two sides -/
@@ -429,6 +468,91 @@ theorem C02_sys_refused_witness :
          (s.hist.emitted.map fun x => (x.mode, x.data.length)) = [(.reliable, 1500)])
      | .error _ => false) = true := by decide +kernel
 
+/-! ## Sync frames: `sync` / `resync` -/
+
+/-- **Recorded sync values are genuine**: every entry `(n, id)` of `syncs` was the sender's
+`next_id` at a moment when `n ≤` (number of packets emitted by now) packets had been emitted:
+`id = packet_id::add(b, n)`. So a `resync` step hands the receiver only ids the sender could have put
+into the `next_packet_id` field of a sync frame. -/
+theorem C01_sys_syncs_genuine (w k b a m : Nat) (hw : w < 2^20) (hk : k ≤ 19) (hb : b < 2^20)
+    (ops : List SOp) (s' : Sys) (h : runS (initS w (2^k) b a m) ops = .ok s') :
+    ∀ n id, (n, id) ∈ s'.syncs → n ≤ s'.hist.emitted.length ∧ id = pidAdd b n := by
+  intro n id hm
+  obtain ⟨h1, h2⟩ := (C01_sys_reach w k b a m hw hk hb ops s' h).syncs n id hm
+  refine ⟨h1, ?_⟩
+  rw [h2]
+  simp only [pidAdd, PACKET_ID_SPAN]
+  omega
+
+/-- **What a recorded sync value certifies** (`w ≤ 2^16`). If `(n, id)` is in `syncs` — the guard
+`SyncOk` held when the sender's next id was `n` — then at every later time every Reliable packet
+emitted before `n` is completely received (`Recvd`): it is in the log, or the receive window base has
+passed it (and then it is in the log as well, `C02_sys_reliable_taken_before_passed`), or it lies in
+the receive window with its entry flag set. (`handle_datagram` never clears an entry flag; `receive` /
+`resynchronize` clear it only when the window base passes the slot.) -/
+theorem C02_sys_synced_reliable_received (w k b a m : Nat) (hw : w ≤ 2^16) (hk : k ≤ 19) (hb : b < 2^20)
+    (ops : List SOp) (s' : Sys) (h : runS (initS w (2^k) b a m) ops = .ok s')
+    (n id : Nat) (hm : (n, id) ∈ s'.syncs) (j : Nat) (x : Emitted) (hx : s'.hist.emitted[j]? = some x)
+    (hrel : x.mode = .reliable) (hj : j < n) : Recvd s' x := by
+  have hs := C01_sys_reach w k b a m (by omega) hk hb ops s' h
+  have hp := C02_sys_reach_delivery w k b a m hw hk hb ops s' h
+  have := hp.sync n id hm j x hx hrel hj
+  unfold Recvd
+  rw [(hs.snd.hinv.ids j x hx).1, widx_eq hs.rcv.inv, getSlot_eq, hs.rcv.inv.wsz]
+  exact this
+
+/-- **A `resync` step never skips a Reliable packet** (`w ≤ 2^16`). `resynchronize(id)` moves the
+window base over ids whose slots have no entry flag, up to the first slot with an entry flag or to
+`id`. If a `resync` step moves the base past the emission position `j` of a Reliable emitted packet
+(`s.rcv.adv ≤ j < s'.rcv.adv`), that packet is already in the log: `receive` took it out of the window
+before. (With the liveness invariant it follows that no such `j` exists at all:
+`C02_sys_resync_passes_no_reliable` in `Props/C02Live.lean`.) The log itself is not changed by a
+`resync` step (`C01_sys_log_is_receive_output`), and the new base is at most the recorded sync value.
+So the `resynchronize` witness of `Props/C02Recv.lean` (`C02_overtake_witness_resync`) — a hostile id
+making the base pass a Reliable packet that never arrived — does not arise with sync values recorded
+under `SyncOk`. -/
+theorem C02_sys_resync_keeps_reliable (w k b a m : Nat) (hw : w ≤ 2^16) (hk : k ≤ 19) (hb : b < 2^20)
+    (ops : List SOp) (s : Sys) (h : runS (initS w (2^k) b a m) ops = .ok s) (s' : Sys) (kk : Nat)
+    (hs : stepS s (.resync kk) = .ok s') (j : Nat) (x : Emitted) (hx : s.hist.emitted[j]? = some x)
+    (hrel : x.mode = .reliable) (h1 : s.rcv.adv ≤ j) (h2 : j < s'.rcv.adv) :
+    ∃ e ∈ s.rcv.log, e.uid = j := by
+  have hinv := C01_sys_reach w k b a m (by omega) hk hb ops s h
+  have hp := C02_sys_reach_delivery w k b a m hw hk hb ops s h
+  have hW := wOk_pow k hk
+  simp only [stepS] at hs
+  split at hs
+  · cases hs; omega
+  · rename_i n id hk'
+    split at hs
+    · rename_i hfresh
+      rw [stepT_resync] at hs
+      cases hr : resynchronize s.rcv.st id with
+      | error t => rw [hr] at hs; cases hs
+      | ok st' =>
+        rw [hr, bindR_ok, bindR_ok] at hs
+        cases hs
+        have hmem := List.mem_of_getElem? hk'
+        have h2' : j < s.rcv.adv + pidSub st'.baseId s.rcv.st.baseId := h2
+        rcases resync_cases (by omega) hinv n id hmem hfresh st' hr with rfl | ⟨nb, hnb, hle, hδ, hadv, hno⟩
+        · rw [pidSub_self] at h2'; omega
+        · have F := advanceWindow_facts hW hinv.rcv.inv hinv.rcv.ord nb hnb hδ hadv
+          rw [F.base] at h2'
+          exact resync_rel_logged hW hinv hp n id hmem nb hle hδ hno j x hx hrel h1 h2'
+    · cases hs; omega
+
+/-- `SyncFresh` from "recent", as `C01_sys_fresh_of_recent`: a sync value `n` after which fewer than
+`2^19` packets have been emitted satisfies `SyncFresh`. -/
+theorem C01_sys_syncfresh_of_recent (w k b a m : Nat) (hw : w ≤ 2^19) (hk : k ≤ 19) (hb : b < 2^20)
+    (ops : List SOp) (s' : Sys) (h : runS (initS w (2^k) b a m) ops = .ok s') :
+    ∀ n, s'.hist.emitted.length < n + 2^19 → SyncFresh s' n := by
+  have hs := C01_sys_reach w k b a m (by omega) hk hb ops s' h
+  have hW : 2^k ≤ 2^19 := Nat.pow_le_pow_right (by decide) hk
+  intro n hn
+  unfold SyncFresh
+  rw [hs.rcv.inv.wsz]
+  have := hs.hi
+  omega
+
 /-! ## The network hypotheses -/
 
 /-- "Recent" implies fresh: a datagram of a packet after which fewer than `2^19` packets have been
@@ -575,5 +699,46 @@ example :
          ((s.rcv.log.take 3).map fun e => (e.uid, e.chan)) = [(1, 1), (0, 0), (2, 0)] ∧
          (s.hist.emitted.map fun x => (x.mode, x.channelId))[0]? = some (.reliable, 0))
      | .error _ => false) = true := by decide +kernel
+
+/-- A run with sync frames: send window 8, receive window `8 = 2^3`. Channel 0: Reliable `R = [1]`,
+Unreliable `U = [2]`, Unreliable `V = [3]`. All three are emitted; only `R` arrives. A `sync` at this
+point is refused (the guard `SyncOk` fails: `R` is Reliable and its entry flag is not set yet — it is
+set by the `deliver`), after `deliver 0` it is taken and records `(3, 3)`. `receive` delivers `R` and
+moves the base to 1 (`U`, `V` are missing and nothing says they are not Reliable). The `resync` then
+moves the base from 1 to 3, past the two lost Unreliable packets, without a `receive`; the late
+datagram of `U` is ignored. A new Reliable packet `[4]` follows and is delivered. -/
+def syncOps : List SOp :=
+  [ .enq [1] 0 .reliable 0, .enq [2] 0 .unreliable 0, .enq [3] 0 .unreliable 0, .emit 0, .emit 0, .emit 0,
+    .sync, .deliver 0, .sync, .recv, .resync 0, .deliver 1, .recv,
+    .enq [4] 0 .reliable 0, .emit 0, .deliver 3, .recv ]
+
+/-- The run exists and ends as described: one recorded sync value `(3, 3)` (the first `sync` was
+refused), `seen` has the bases after the two first `receive` calls / the `resync` / the last
+`receive`, the log holds `R` and `[4]` (unwrapped ids 0 and 3; `U` and `V` were never delivered), and
+the hypotheses of `C02_sys_resync_keeps_reliable` / `C02_sys_synced_reliable_received` are satisfiable
+(the `resync` moved the base from 1 to 3; the Reliable packet at position 0 is in the log). -/
+theorem C01_sys_sync_example :
+    (match runS (initS 8 (2^3) 0 100000 100000) syncOps with
+     | .ok s =>
+       decide (s.syncs = [(3, 3)] ∧ s.seen = [(0, 0), (1, 1), (3, 3), (3, 3), (4, 4)] ∧
+         (s.rcv.log.map fun e => (e.uid, e.data)) = [(0, some [1]), (3, some [4])] ∧ s.rcv.adv = 4 ∧
+         (s.hist.emitted.map (·.mode)) = [.reliable, .unreliable, .unreliable, .reliable])
+     | .error _ => false) = true ∧
+    (match runS (initS 8 (2^3) 0 100000 100000) (syncOps.take 10) with
+     | .ok s =>
+       (match stepS s (.resync 0) with
+        | .ok s' => decide (s.rcv.adv = 1 ∧ s'.rcv.adv = 3 ∧ s'.rcv.log = s.rcv.log ∧ SyncFresh s 3)
+        | .error _ => false)
+     | .error _ => false) = true ∧
+    (match runS (initS 8 (2^3) 0 100000 100000) (syncOps.take 6) with
+     | .ok s => decide (¬ SyncOk s)
+     | .error _ => false) = true := by
+  refine ⟨by decide +kernel, by decide +kernel, by decide +kernel⟩
+
+/-- Hypotheses of `C02_overtake`-style reasoning do not apply, but the sender-side guard matters:
+without it (a sync value recorded while a Reliable packet is missing) the `resynchronize` of the
+receiver model does skip that packet — `Props/C02Recv.lean`, `C02_overtake_witness_resync`. In `Sys`
+the `sync` step is refused in that situation (third component of `C01_sys_sync_example`). -/
+example : (8 : Nat) ≤ 2^16 ∧ (3 : Nat) ≤ 19 ∧ (0 : Nat) < 2^20 := by decide
 
 end Uflow.Props.C01Sys
